@@ -1,9 +1,750 @@
 package engine
 
-import "testing"
+import (
+	"bytes"
+	"encoding/hex"
+	"encoding/json"
+	"errors"
+	"fmt"
+	"hash/crc32"
+	"net/http"
+	"net/http/httptest"
+	"net/url"
+	"sort"
+	"strconv"
+	"strings"
+	"sync"
+	"time"
 
-func RunSsim(scn *Scenario) *Run { return newRun(scn) }
+	"github.com/anishathalye/porcupine"
+	"github.com/bartventer/httpcache/store"
+	"github.com/bartventer/httpcache/store/driver"
+	"github.com/bartventer/httpcache/store/expapi"
+	"github.com/bartventer/httpcache/store/fscache"
+	"github.com/bartventer/httpcache/verifsim/kit"
+	"github.com/bartventer/httpcache/verifsim/simos"
+)
 
-func JudgeSsim(r *Run) *Judged { return &Judged{Judgements: map[string]int{}} }
+// SHist is one store-level operation in the recorded history.
+type SHist struct {
+	Client  string
+	Phase   int
+	Idx     int
+	Op      *SOp
+	Key     string
+	ValID   string // set: id of the value written
+	Val     []byte
+	Inv     uint64
+	Ret     uint64 // 0: never returned (killed)
+	OK      bool
+	NotEx   bool
+	Err     string
+	Got     []byte
+	GotID   string // get: id of the value returned ("" if not one of the values set)
+	Keys    []string
+	API     bool
+	Status  int
+	Isolate string // buffer-isolation result
+	Skipped bool
+}
 
-func enumMode(t *testing.T, job *Job) {}
+type keyLister interface {
+	Keys(prefix string) ([]string, error)
+}
+
+func sval(id string, n, class int) []byte {
+	if n < 0 {
+		n = 0
+	}
+	pay := make([]byte, n)
+	x := crc32.ChecksumIEEE([]byte(id))
+	for i := range pay {
+		x = x*1664525 + 1013904223
+		switch class {
+		case 1:
+			pay[i] = byte(x >> 24)
+		default:
+			pay[i] = "abcdefghijklmnopqrstuvwxyz0123456789"[(x>>24)%36]
+		}
+	}
+	hdr := fmt.Sprintf("{{%s|%d|%08x}}", id, n, crc32.ChecksumIEEE(pay))
+	return append([]byte(hdr), pay...)
+}
+
+// svalID recognises a complete self-describing value.
+func svalID(v []byte) string {
+	if !bytes.HasPrefix(v, []byte("{{")) {
+		return ""
+	}
+	i := bytes.Index(v, []byte("}}"))
+	if i < 0 {
+		return ""
+	}
+	parts := strings.Split(string(v[2:i]), "|")
+	if len(parts) != 3 {
+		return ""
+	}
+	n, err := strconv.Atoi(parts[1])
+	if err != nil || len(v)-(i+2) != n {
+		return ""
+	}
+	if fmt.Sprintf("%08x", crc32.ChecksumIEEE(v[i+2:])) != parts[2] {
+		return ""
+	}
+	return parts[0]
+}
+
+func (r *Run) ssimDSN() string {
+	switch r.Scn.Backend {
+	case "fsenc":
+		return "fscache:///simcache?appname=app&encrypt=aesgcm&encrypt_key=" + r.ssimKey()
+	case "fs":
+		return "fscache:///simcache?appname=app"
+	}
+	return "memcache://"
+}
+
+func (r *Run) ssimKey() string {
+	if r.encKey != "" {
+		return r.encKey
+	}
+	return simKeyB64
+}
+
+func (r *Run) ssimOpen() (driver.Conn, error) {
+	switch r.Scn.Backend {
+	case "fsenc":
+		switch r.Scn.EncVia {
+		case "option":
+			return fscache.Open("app", fscache.WithBaseDir("/simcache"), fscache.WithEncryption(r.ssimKey()))
+		case "env":
+			simos.Setenv("FSCACHE_ENCRYPT_KEY", r.ssimKey())
+			defer simos.Unsetenv("FSCACHE_ENCRYPT_KEY")
+			return store.Open("fscache:///simcache?appname=app&encrypt=on")
+		}
+		return store.Open(r.ssimDSN())
+	case "fs":
+		return store.Open(r.ssimDSN())
+	}
+	return store.Open("memcache://")
+}
+
+// RunSsim executes a store-level scenario in the calling bubble.
+func RunSsim(scn *Scenario) *Run {
+	r := newRun(scn)
+	tape := kit.NewTape(scn.Decisions, scn.SchedSeed, len(scn.Decisions) == 0)
+	r.Sim = kit.New(tape, scn.Sched)
+	simos.Reset(diskHook{r})
+	simos.WriteChunk = scn.WChunk
+	if scn.Backend == "fsenc" {
+		r.plainWatch = true
+	}
+	var mu sync.Mutex
+	done := false
+	started := make(chan struct{})
+	var all sync.WaitGroup
+	all.Add(1)
+	go func() {
+		defer all.Done()
+		g := r.Sim.Register("sup")
+		close(started)
+		r.Sim.Yield("sup")
+		phases := [][]SClient{scn.SClients, scn.Phase2}
+		for ph, cls := range phases {
+			if ph == 1 && len(cls) == 0 {
+				break
+			}
+			r.Sim.Adopt(g)
+			conn, err := r.ssimOpen()
+			g = r.Sim.Yield("sup-open")
+			if r.Sim.Aborted() {
+				break
+			}
+			if err != nil {
+				r.Sim.Event(g, "open.err", err.Error())
+				r.OpenErr = err.Error()
+				break
+			}
+			r.Sim.Event(g, "open", fmt.Sprintf("phase=%d backend=%s", ph, scn.Backend))
+			r.setConn(conn)
+			var wg sync.WaitGroup
+			for ci := range cls {
+				wg.Add(1)
+				all.Add(1)
+				go func() {
+					defer all.Done()
+					defer wg.Done()
+					r.sclient(ph, ci, &cls[ci])
+				}()
+			}
+			wg.Wait()
+			if r.Sim.Aborted() {
+				break
+			}
+		}
+		mu.Lock()
+		done = true
+		mu.Unlock()
+	}()
+	<-started
+	r.Sim.Run(func() bool { mu.Lock(); defer mu.Unlock(); return done }, drainSpan)
+	r.VirtSpan = r.Sim.Now()
+	r.DiskEnd = simos.Snapshot()
+	r.Sim.Abort()
+	all.Wait()
+	simos.SetHook(nil)
+	return r
+}
+
+// key decodes entry i of the scenario's (hex-encoded, so that JSON preserves arbitrary bytes) key table.
+func (r *Run) key(i int) string {
+	b, err := hex.DecodeString(r.Scn.Keys[i%len(r.Scn.Keys)])
+	if err != nil {
+		panic(err)
+	}
+	return string(b)
+}
+
+func (r *Run) allKeys() []string {
+	out := make([]string, len(r.Scn.Keys))
+	for i := range r.Scn.Keys {
+		out[i] = r.key(i)
+	}
+	return out
+}
+
+func (r *Run) setConn(c driver.Conn) {
+	r.mu.Lock()
+	r.sconn = c
+	r.mu.Unlock()
+}
+
+func (r *Run) getConn() driver.Conn {
+	r.mu.Lock()
+	defer r.mu.Unlock()
+	return r.sconn
+}
+
+func (r *Run) sclient(phase, ci int, cl *SClient) {
+	name := fmt.Sprintf("p%dc%d", phase, ci+1)
+	g := r.Sim.Register(name)
+	for oi := range cl.Ops {
+		op := &cl.Ops[oi]
+		g.SetOp(oi)
+		r.Sim.Yield("sop")
+		if r.Sim.Aborted() {
+			return
+		}
+		key := r.key(op.Key)
+		h := &SHist{Client: name, Phase: phase, Idx: oi, Op: op, Key: key}
+		r.mu.Lock()
+		r.SHists = append(r.SHists, h)
+		r.mu.Unlock()
+		conn := r.getConn()
+		ret := func(info string) {
+			g = r.Sim.Yield("sret")
+			if r.Sim.Aborted() {
+				return
+			}
+			h.Ret = r.Sim.Event(g, "s.ret", info)
+		}
+		switch op.Kind {
+		case "set", "set-mutate":
+			h.ValID = fmt.Sprintf("%s.%d", name, oi)
+			h.Val = sval(h.ValID, op.ValLen, op.Class)
+			if r.plainWatch {
+				r.addPlain(h.Val)
+			}
+			buf := append([]byte(nil), h.Val...)
+			h.Inv = r.Sim.Event(g, "s.set", fmt.Sprintf("k%d %s len=%d", op.Key, h.ValID, len(buf)))
+			err := conn.Set(key, buf)
+			if op.Kind == "set-mutate" {
+				for i := range buf {
+					buf[i] ^= 0x5a
+				}
+			}
+			h.OK = err == nil
+			if err != nil {
+				h.Err = err.Error()
+			}
+			ret(fmt.Sprintf("set err=%v", err != nil))
+		case "get", "get-mutate":
+			h.Inv = r.Sim.Event(g, "s.get", fmt.Sprintf("k%d", op.Key))
+			v, err := conn.Get(key)
+			if err != nil {
+				h.Err, h.NotEx = err.Error(), errors.Is(err, driver.ErrNotExist)
+			} else {
+				h.OK, h.Got, h.GotID = true, append([]byte(nil), v...), svalID(v)
+			}
+			if op.Kind == "get-mutate" && err == nil {
+				for i := range v {
+					v[i] ^= 0xa5
+				}
+			}
+			ret(fmt.Sprintf("get ok=%v notex=%v id=%s len=%d", h.OK, h.NotEx, h.GotID, len(h.Got)))
+		case "delete":
+			h.Inv = r.Sim.Event(g, "s.del", fmt.Sprintf("k%d", op.Key))
+			err := conn.Delete(key)
+			h.OK = err == nil
+			if err != nil {
+				h.Err, h.NotEx = err.Error(), errors.Is(err, driver.ErrNotExist)
+			}
+			ret(fmt.Sprintf("del ok=%v notex=%v", h.OK, h.NotEx))
+		case "keys":
+			kl, ok := conn.(keyLister)
+			if !ok {
+				h.Inv = r.Sim.Event(g, "s.keys", "unsupported")
+				h.Err = "unsupported"
+				ret("keys unsupported")
+				continue
+			}
+			pfx := key[:min(op.Prefix, len(key))]
+			h.Key = pfx
+			h.Inv = r.Sim.Event(g, "s.keys", fmt.Sprintf("prefix of k%d len=%d", op.Key, len(pfx)))
+			ks, err := kl.Keys(pfx)
+			h.OK = err == nil
+			if err != nil {
+				h.Err = err.Error()
+			}
+			sort.Strings(ks)
+			h.Keys = ks
+			ret(fmt.Sprintf("keys ok=%v n=%d", h.OK, len(ks)))
+		case "reopen":
+			h.Inv = r.Sim.Event(g, "s.reopen", "")
+			if r.Scn.Backend == "mem" {
+				ret("reopen skipped")
+				continue
+			}
+			c2, err := r.ssimOpen()
+			h.OK = err == nil
+			if err == nil {
+				r.setConn(c2)
+			} else {
+				h.Err = err.Error()
+			}
+			ret(fmt.Sprintf("reopen ok=%v", h.OK))
+		case "api-get", "api-delete", "api-list":
+			h.API = true
+			if op.Kind != "api-list" && !routable(key) {
+				// not addressable through a URL path segment by construction: not exercised
+				h.Inv = r.Sim.Event(g, "s."+op.Kind, "skipped (key not routable)")
+				h.Skipped = true
+				ret("skipped")
+				continue
+			}
+			r.apiOp(g, h, op, key, ret)
+		}
+	}
+}
+
+var apiOnce sync.Once
+var apiMux *http.ServeMux
+
+func (r *Run) apiOp(g *kit.Gor, h *SHist, op *SOp, key string, ret func(string)) {
+	apiOnce.Do(func() {
+		apiMux = http.NewServeMux()
+		expapi.Register(expapi.WithServeMux(apiMux))
+	})
+	dsn := url.QueryEscape(r.ssimDSN())
+	var req *http.Request
+	switch op.Kind {
+	case "api-get":
+		req = httptest.NewRequest("GET", "/debug/httpcache/"+url.PathEscape(key)+"?dsn="+dsn, nil)
+	case "api-delete":
+		req = httptest.NewRequest("DELETE", "/debug/httpcache/"+url.PathEscape(key)+"?dsn="+dsn, nil)
+	default:
+		pfx := key[:min(op.Prefix, len(key))]
+		h.Key = pfx
+		req = httptest.NewRequest("GET", "/debug/httpcache?dsn="+dsn+"&prefix="+url.QueryEscape(pfx), nil)
+	}
+	h.Inv = r.Sim.Event(g, "s."+op.Kind, fmt.Sprintf("k%d", op.Key))
+	rec := httptest.NewRecorder()
+	apiMux.ServeHTTP(rec, req)
+	h.Status = rec.Code
+	h.Got = append([]byte(nil), rec.Body.Bytes()...)
+	switch op.Kind {
+	case "api-get":
+		h.OK = rec.Code == 200
+		h.NotEx = rec.Code == 404
+		h.GotID = svalID(h.Got)
+	case "api-delete":
+		h.OK = rec.Code == 204
+		h.NotEx = rec.Code == 404
+	default:
+		h.OK = rec.Code == 200
+		var m map[string][]string
+		if json.Unmarshal(h.Got, &m) == nil {
+			h.Keys = m["keys"]
+			sort.Strings(h.Keys)
+		}
+	}
+	if !h.OK && !h.NotEx {
+		h.Err = fmt.Sprintf("status %d: %s", rec.Code, strings.TrimSpace(rec.Body.String()))
+	}
+	ret(fmt.Sprintf("%s status=%d", op.Kind, rec.Code))
+}
+
+func (r *Run) addPlain(v []byte) {
+	r.mu.Lock()
+	defer r.mu.Unlock()
+	// distinctive windows of the plaintext: the self-describing head and a few interior windows
+	if len(v) >= 8 {
+		r.diskPlain = append(r.diskPlain, append([]byte(nil), v[:min(16, len(v))]...))
+	}
+	for _, off := range []int{len(v) / 3, len(v) / 2, len(v) - 12} {
+		if off > 16 && off+8 <= len(v) {
+			r.diskPlain = append(r.diskPlain, append([]byte(nil), v[off:off+8]...))
+		}
+	}
+}
+
+// ---------------- store-level oracles ----------------
+
+func routable(key string) bool {
+	// keys made only of '/' and '.' are rewritten or rejected by URL path cleaning before they
+	// reach the handler; everything else travels as one escaped path segment
+	return strings.Trim(key, "/.") != ""
+}
+
+func keyClass(k string) string {
+	switch {
+	case k == "":
+		return "empty"
+	case len(k) > 191:
+		return "fragmented"
+	}
+	return "flat"
+}
+
+func JudgeSsim(r *Run) *Judged {
+	j := &Judged{Judgements: map[string]int{}}
+	if r.Sim == nil {
+		return j
+	}
+	sequential := len(r.Scn.SClients) == 1 && len(r.Scn.Phase2) <= 1 && len(r.Scn.DiskFaults) == 0
+	vfail := func(prop, rule, sig string, h *SHist, format string, a ...any) {
+		v := Violation{Prop: prop, Rule: rule, Msg: fmt.Sprintf(format, a...), Sig: rule}
+		if sig != "" {
+			v.Sig = rule + ":" + sig
+		}
+		if h != nil {
+			v.Seq, v.Op = h.Ret, h.Idx
+			if v.Seq == 0 {
+				v.Seq = h.Inv
+			}
+		}
+		j.Violations = append(j.Violations, v)
+	}
+	if r.OpenErr != "" {
+		vfail("C14", "open-failed", "", nil, "backend could not be opened: %s", r.OpenErr)
+	}
+	// ---- C14: refinement against a map (sequential, fault-free) ----
+	if sequential {
+		model := map[string][]byte{}
+		ids := map[string]string{}
+		collide := func(k string) string {
+			// discriminating feature for known findings: the key's file name is (a prefix of) the
+			// directory path of another key of this run, or vice versa
+			for _, o := range r.allKeys() {
+				if o == k {
+					continue
+				}
+				a, b := k, o
+				if len(a) > len(b) {
+					a, b = b, a
+				}
+				if len(a) > 0 && len(a)%36 == 0 && len(b) > 191 && strings.HasPrefix(b, a) {
+					return "fragment-dir-collision"
+				}
+			}
+			return keyClass(k)
+		}
+		for _, h := range r.SHists {
+			if h.Ret == 0 {
+				continue
+			}
+			if h.Skipped {
+				continue
+			}
+			switch h.Op.Kind {
+			case "set", "set-mutate":
+				j.count("C14", "set-failed")
+				if !h.OK {
+					vfail("C14", "set-failed", collide(h.Key), h, "Set of key %q (len %d) failed on a fault-free backend: %s", clip(h.Key), len(h.Key), h.Err)
+					continue
+				}
+				model[h.Key], ids[h.Key] = h.Val, h.ValID
+			case "get", "get-mutate", "api-get":
+				j.count("C14", "get-differs")
+				want, ok := model[h.Key]
+				switch {
+				case ok && !h.OK:
+					vfail("C14", "get-differs", collide(h.Key)+"+lost", h, "Get of key %q (len %d): want value %s, got error %q (api=%v)", clip(h.Key), len(h.Key), ids[h.Key], h.Err, h.API)
+				case ok && !bytes.Equal(h.Got, want):
+					sig := "bytes"
+					if h.Op.Kind != "api-get" && svalID(h.Got) == "" {
+						sig = "mutated-or-torn"
+					} else if h.GotID != ids[h.Key] {
+						sig = "other-value"
+					}
+					vfail("C14", "get-differs", sig, h, "Get of key %q: want value %s (%d bytes), got %d bytes id=%q (api=%v)", clip(h.Key), ids[h.Key], len(want), len(h.Got), h.GotID, h.API)
+				case !ok && h.OK:
+					vfail("C14", "get-differs", "phantom:"+collide(h.Key), h, "Get of absent key %q returned %d bytes (id=%q)", clip(h.Key), len(h.Got), h.GotID)
+				case !ok && !h.NotEx:
+					vfail("C14", "get-differs", "absent-error-kind:"+collide(h.Key), h, "Get of absent key %q returned an error that is not ErrNotExist: %s", clip(h.Key), h.Err)
+				}
+			case "delete", "api-delete":
+				j.count("C14", "delete-differs")
+				_, ok := model[h.Key]
+				switch {
+				case ok && !h.OK:
+					vfail("C14", "delete-differs", "failed:"+collide(h.Key), h, "Delete of live key %q failed: %s", clip(h.Key), h.Err)
+				case !ok && h.OK:
+					vfail("C14", "delete-differs", "phantom:"+collide(h.Key), h, "Delete of absent key %q succeeded", clip(h.Key))
+				case !ok && !h.NotEx:
+					vfail("C14", "delete-differs", "absent-error-kind:"+collide(h.Key), h, "Delete of absent key %q returned an error that is not ErrNotExist: %s", clip(h.Key), h.Err)
+				}
+				if h.OK {
+					delete(model, h.Key)
+				}
+			case "keys", "api-list":
+				if h.Err == "unsupported" {
+					continue
+				}
+				j.count("C14", "keys-differs")
+				var want []string
+				for k := range model {
+					if strings.HasPrefix(k, h.Key) {
+						want = append(want, k)
+					}
+				}
+				if h.API {
+					// JSON cannot carry bytes that are not UTF-8: compare modulo that encoding
+					b, _ := json.Marshal(want)
+					_ = json.Unmarshal(b, &want)
+				}
+				sort.Strings(want)
+				if !h.OK {
+					vfail("C14", "keys-differs", "error", h, "listing keys with prefix %q failed: %s", clip(h.Key), h.Err)
+				} else if !equalStrings(want, h.Keys) {
+					vfail("C14", "keys-differs", "", h, "listing keys with prefix %q: want %d keys %v, got %d keys %v", clip(h.Key), len(want), clipAll(want), len(h.Keys), clipAll(h.Keys))
+				}
+			case "reopen":
+				j.count("C14", "reopen-failed")
+				if !h.OK && r.Scn.Backend != "mem" {
+					vfail("C14", "reopen-failed", "", h, "reopening the backend failed: %s", h.Err)
+				}
+			}
+		}
+	}
+	// ---- C15: torn reads and linearizability (all runs) ----
+	setIDs := map[string]map[string]bool{}
+	for _, h := range r.SHists {
+		if h.ValID != "" {
+			if setIDs[h.Key] == nil {
+				setIDs[h.Key] = map[string]bool{}
+			}
+			setIDs[h.Key][h.ValID] = true
+		}
+	}
+	conc := !sequential
+	for _, h := range r.SHists {
+		if (h.Op.Kind == "get" || h.Op.Kind == "get-mutate") && h.OK && h.Ret != 0 && r.Scn.Backend != "mem" {
+			j.count("C15", "torn-read")
+			if h.GotID == "" || !setIDs[h.Key][h.GotID] {
+				sig := "sequential"
+				if conc {
+					sig = "concurrent"
+				}
+				if r.Crashes > 0 {
+					sig = "after-kill"
+				} else if firedPrefix(r.Faults, "disk.") {
+					sig = "after-write-failure"
+				}
+				vfail("C15", "torn-read", sig, h, "Get of key %q returned %d bytes that are not a complete value ever passed to Set for that key (head %q)", clip(h.Key), len(h.Got), clip(string(h.Got)))
+			}
+		}
+	}
+	if r.Scn.Backend != "mem" || conc {
+		judgeLinearizable(r, j, vfail)
+	}
+	// ---- C17: plaintext on disk ----
+	if r.plainWatch {
+		j.count("C17", "plaintext-on-disk")
+		if len(r.PlainHits) > 0 {
+			vfail("C17", "plaintext-on-disk", "", nil, "a file written by the encrypted backend contains plaintext of a stored value: %s", r.PlainHits[0])
+		}
+	}
+	return j
+}
+
+func firedPrefix(m map[string]int, p string) bool {
+	for k := range m {
+		if strings.HasPrefix(k, p) && k != "disk.short-read" {
+			return true
+		}
+	}
+	return false
+}
+
+func clip(s string) string {
+	if len(s) > 40 {
+		return fmt.Sprintf("%s…(%d bytes)", s[:40], len(s))
+	}
+	return s
+}
+
+func clipAll(ss []string) []string {
+	out := make([]string, 0, len(ss))
+	for _, s := range ss {
+		out = append(out, clip(s))
+	}
+	return out
+}
+
+func equalStrings(a, b []string) bool {
+	if len(a) != len(b) {
+		return false
+	}
+	for i := range a {
+		if a[i] != b[i] {
+			return false
+		}
+	}
+	return true
+}
+
+// ---- linearizability of per-key histories (porcupine) ----
+
+type regIn struct {
+	kind string // set get delete
+	id   string
+}
+type regOut struct {
+	ok, notex, failed, never bool
+	id                      string
+}
+
+const absent = "\x00absent"
+const emptyFile = "\x00empty" // a Set that was cut may leave an empty or partial file: reads of it are judged by torn-read
+
+var regModel = porcupine.NondeterministicModel{
+	Init: func() []interface{} { return []interface{}{absent} },
+	Step: func(state, input, output interface{}) []interface{} {
+		st := state.(string)
+		in, out := input.(regIn), output.(regOut)
+		switch in.kind {
+		case "set":
+			if out.ok {
+				return []interface{}{in.id}
+			}
+			// failed or never returned: applied, not applied, removed, or left in a torn state
+			return []interface{}{st, in.id, absent, emptyFile}
+		case "get":
+			switch {
+			case out.failed, out.never:
+				return []interface{}{st}
+			case out.notex:
+				if st == absent {
+					return []interface{}{st}
+				}
+				return nil
+			case out.id == "":
+				// torn bytes: reported by torn-read; does not constrain the order
+				return []interface{}{st}
+			default:
+				if st == out.id {
+					return []interface{}{st}
+				}
+				return nil
+			}
+		case "delete":
+			switch {
+			case out.ok:
+				if st == absent {
+					return nil
+				}
+				return []interface{}{absent}
+			case out.notex:
+				if st == absent {
+					return []interface{}{st}
+				}
+				return nil
+			default:
+				return []interface{}{st, absent}
+			}
+		}
+		return []interface{}{st}
+	},
+	Equal: func(a, b interface{}) bool { return a == b },
+}
+
+func judgeLinearizable(r *Run, j *Judged, vfail func(prop, rule, sig string, h *SHist, format string, a ...any)) {
+	byKey := map[string][]*SHist{}
+	var maxSeq uint64
+	for _, h := range r.SHists {
+		switch h.Op.Kind {
+		case "set", "set-mutate", "get", "get-mutate", "delete":
+			byKey[h.Key] = append(byKey[h.Key], h)
+		}
+		maxSeq = max(maxSeq, h.Inv, h.Ret)
+	}
+	keys := make([]string, 0, len(byKey))
+	for k := range byKey {
+		keys = append(keys, k)
+	}
+	sort.Strings(keys)
+	model := regModel.ToModel()
+	clientIDs := map[string]int{}
+	for _, k := range keys {
+		hs := byKey[k]
+		if len(hs) > 24 {
+			hs = hs[:24]
+		}
+		var ops []porcupine.Operation
+		for _, h := range hs {
+			if h.Inv == 0 {
+				continue
+			}
+			cid, ok := clientIDs[h.Client]
+			if !ok {
+				cid = len(clientIDs)
+				clientIDs[h.Client] = cid
+			}
+			in := regIn{kind: strings.TrimSuffix(strings.TrimSuffix(h.Op.Kind, "-mutate"), ""), id: h.ValID}
+			out := regOut{ok: h.OK, notex: h.NotEx, failed: !h.OK && !h.NotEx, id: h.GotID, never: h.Ret == 0}
+			if in.kind == "get" && h.OK && (h.GotID == "" ) {
+				out.id = ""
+			}
+			retSeq := h.Ret
+			if retSeq == 0 {
+				retSeq = maxSeq + 1 + uint64(len(ops))
+				out.ok, out.notex, out.failed = false, false, true
+			}
+			ops = append(ops, porcupine.Operation{ClientId: cid, Input: in, Call: int64(h.Inv), Output: out, Return: int64(retSeq)})
+		}
+		if len(ops) < 2 {
+			continue
+		}
+		j.count("C15", "not-linearizable")
+		res := porcupine.CheckOperationsTimeout(model, ops, 20*time.Second)
+		switch res {
+		case porcupine.Illegal:
+			var desc []string
+			for _, h := range hs {
+				desc = append(desc, fmt.Sprintf("%s:%s[%d,%d]->ok=%v notex=%v id=%s%s", h.Client, h.Op.Kind, h.Inv, h.Ret, h.OK, h.NotEx, h.GotID, h.ValID))
+			}
+			sig := "concurrent"
+			if r.Crashes > 0 {
+				sig = "after-kill"
+			} else if firedPrefix(r.Faults, "disk.") {
+				sig = "after-write-failure"
+			} else if len(r.Scn.SClients) == 1 {
+				sig = "sequential"
+			}
+			vfail("C15", "not-linearizable", sig, hs[len(hs)-1], "history of key %q is not linearisable as a register: %s", clip(k), strings.Join(desc, "; "))
+		case porcupine.Unknown:
+			r.Inconclusive++
+		}
+	}
+}
